@@ -5,7 +5,7 @@ D=/root/.verif-scratch/dev
 mkdir -p $D
 rsync -a --delete --exclude /target --exclude /.git /repo/ $D/repo/
 mkdir -p $D/repo/.cargo
-printf '[net]\noffline = true\n[patch.crates-io]\nethnum = { path = "/verif/vendor/ethnum-kani" }\n' > $D/repo/.cargo/config.toml
+printf '[net]\noffline = true\n[patch.crates-io]\nethnum = { path = "/verif/vendor/ethnum-kani" }\nanyhow = { path = "/verif/vendor/anyhow-kani" }\n' > $D/repo/.cargo/config.toml
 for rel in "$@"; do
   printf '\n\n' >> $D/repo/$rel
   cat /verif/contracts/kani/$rel >> $D/repo/$rel
